@@ -724,6 +724,7 @@ HARNESSES = {
     ),
     "sctp-two-data": Harness("sctp-two-data", h_sctp_two_data, lambda tier: [{"role": r} for r in ("client", "server")], style="NC (structure-aware)", bounds="two DATA chunks with independent symbolic 32-bit TSNs, flags 0..7, stream sequence 0..1", encoded=ENC_SCTP, stubs=STUBS, opts=NC_OPTS, twin="two-data-handled"),
     "sctp-then-valid": Harness("sctp-then-valid", h_sctp_then_valid, lambda tier: [{"role": r, "unordered": u} for r in ("client", "server") for u in (False, True)] + [{"role": "client", "unordered": u, "frag": f} for u in (False, True) for f in ("middle", "last")], style="NC + delivery (structure-aware)", bounds="one DATA chunk - a complete message, or a middle / last fragment whose first fragment never comes - with symbolic 32-bit TSN and stream sequence number 2..65535 (ordered or unordered), then two genuine ordered messages", encoded=ENC_SCTP, stubs=STUBS, opts=NC_OPTS, twin="valid-after-bogus-handled"),
+    "sack-abandon": Harness("sack-abandon", lambda ctx, **kw: __import__("harness.c06_partial", fromlist=["h_step_sack_abandon"]).h_step_sack_abandon(ctx, **kw), lambda tier: [{"q": 2, "ngaps": 1, "parked": True}, {"q": 2, "ngaps": 2}], style="STEP", bounds="a SACK (symbolic cumulative point and gap blocks) hitting a sender whose partially reliable message is partly transmitted (fragments in flight, unsent tail, symbolic miss counters): processing it must not raise", encoded=ENC_SCTP, stubs=STUBS, twin="sack-over-pr-message-processed", opts={"samples": 1}),
     "recv-next": Harness("recv-next", lambda ctx, **kw: __import__("harness.c04_dtls", fromlist=["h_demux"]).h_demux(ctx, **kw), lambda tier: [{"connected": True, "n": n} for n in (0, 1, 12)], style="NC", bounds="RTCDtlsTransport._recv_next on one datagram of 0, 1 or 12 bytes whose first two bytes are symbolic", encoded=["aiortc.rtcdtlstransport:RTCDtlsTransport._recv_next"], stubs=["SRTP session -> identity recorder; DTLS engine -> recorder; RTP/RTCP handlers -> recorders"], twin="demuxed", opts=NC_OPTS),
     "stray-dcep": Harness("stray-dcep", lambda ctx, **kw: __import__("harness.c13_channel", fromlist=["h_states"]).h_states(ctx, **kw), lambda tier: [{"pre": p, "event": "dcep"} for p in ("connecting", "open", "closing", "closing-requested", "closed")], style="STEP", bounds="one well-formed but unexpected DCEP message (symbolic stream and message byte) reaching a channel in each lifecycle state: its readyState never moves backwards, no second open / close event, nothing escapes", encoded=ENC_SCTP + ["aiortc.rtcsctptransport:RTCSctpTransport._data_channel_receive"], stubs=STUBS, twin="event-processed", opts={"samples": 1}),
     "sctp-sack-then-valid": Harness("sctp-sack-then-valid", h_sctp_sack_then_valid, lambda tier: [{"role": r} for r in ("client", "server")], style="NC + progress (structure-aware)", bounds="one SACK with a symbolic 32-bit cumulative TSN on a sender with two chunks outstanding, then one more message and the genuine SACK for everything sent", encoded=ENC_SCTP, stubs=STUBS, opts=NC_OPTS, twin="sack-after-bogus-sack-handled"),
